@@ -304,8 +304,24 @@ func checkC14(c *Ctx) {
 						}
 					}
 				}
+				descs := func(call *ssa.Call) []string {
+					var out []string
+					cc := &call.Call
+					if cc.IsInvoke() {
+						out = append(out, descVal(cc.Value))
+					}
+					for _, a := range cc.Args {
+						out = append(out, descVal(a))
+					}
+					return out
+				}
+				da, db := descs(ca), descs(cb)
 				if fmt.Sprint(ra) != fmt.Sprint(rb) {
 					c.bad("C14.dispatch", construct, fmt.Sprintf("the arms forward different parameters: %v vs %v", ra, rb), p.pos(ifi.Pos()))
+				} else if len(da) == len(db) && fmt.Sprint(da) != fmt.Sprint(db) {
+					// same arity: the two back-ends are handed the same operands (the same window of a buffer,
+					// the same flags), not merely something derived from the same parameters
+					c.bad("C14.dispatch", construct, fmt.Sprintf("the arms are handed different arguments: %v vs %v", da, db), p.pos(ifi.Pos()))
 				} else {
 					c.ok("C14.dispatch", construct, fmt.Sprintf("both arms forward parameters %v%s", ra, portable), p.pos(ifi.Pos()))
 				}
